@@ -289,8 +289,16 @@ impl DIDUrl {
     let url: RelativeDIDUrl = {
       let mut url: RelativeDIDUrl = RelativeDIDUrl::new();
       url.set_path(Some(did_url.path()))?;
-      url.set_query(did_url.query())?;
-      url.set_fragment(did_url.fragment())?;
+      // The parser's components exclude the leading delimiter, whereas the setters strip one if present:
+      // restore it so that a component that itself starts with `?` is kept as it is.
+      url.set_query(did_url.query().filter(|s| !s.is_empty()).map(|s| format!("?{s}")).as_deref())?;
+      url.set_fragment(
+        did_url
+          .fragment()
+          .filter(|s| !s.is_empty())
+          .map(|s| format!("#{s}"))
+          .as_deref(),
+      )?;
       url
     };
 
